@@ -27,7 +27,7 @@ pub const OPS: [&str; 27] = [
 ];
 
 pub fn run(ctx: &mut Ctx) {
-    let total = ctx.n(80_000, 1_500_000);
+    let total = ctx.n(80_000, 4_000_000);
     let max_len = ctx.pick(12usize, 40usize);
     let (sk, _pk) = SignatureScheme::Ed25519.keypair();
     let (_rsk, rpk) = EncapsulationScheme::X25519.keypair();
